@@ -465,10 +465,13 @@ func init() {
 				if err != nil {
 					d := map[string]interface{}{"k": "?"}
 					if pe, ok := err.(*perrors.Error); ok {
+						// render the error first (twice): rendering must not change the value
+						msg := pe.Error()
+						_ = pe.Error()
 						d = run.Describe(pe)
 						d["stacktop"] = pe.StackTop
 						d["injected"] = pe.Err == vlog.ErrInjected
-						d["msg"] = pe.Error()
+						d["msg"] = msg
 						if pe.ErrorToken != nil {
 							d["toktype"] = int(pe.ErrorToken.Type)
 							d["toklit"] = string(pe.ErrorToken.Lit)
